@@ -5,6 +5,7 @@ package main
 // the query agrees with the count.
 
 import (
+	"math"
 	"fmt"
 	"strconv"
 	"strings"
@@ -287,6 +288,14 @@ func c10Gen(r *Rng, n int) []string {
 			m = map[string]interface{}{k1: outer, "k0": "x"}
 			nestedPath = k1 + "." + k2 + "." + k3
 		}
+		zeros := r.P(4)
+		if zeros {
+			// zero and negative zero are different values (sign bit, "-0" in JSON)
+			nz := math.Copysign(0, -1)
+			m = map[string]interface{}{"a": map[string]interface{}{"x": 0.0, "y": []interface{}{0.0, nz, 1.0}, "z": nz}, "k": "v"}
+			nestedPath = r.Pick([]string{"a.x", "a.y", "a.z", "a.*"})
+			nested = true
+		}
 		ms := enc(m)
 		sep := ":"
 		if r.P(10) {
@@ -314,6 +323,9 @@ func c10Gen(r *Rng, n int) []string {
 			switch r.Intn(4) {
 			case 0:
 				nv = enc(map[string]interface{}{key: r.Value(&cfg, 3, false)})
+				if zeros {
+					nv = enc(map[string]interface{}{key: []interface{}{0.0, math.Copysign(0, -1)}[r.Intn(2)]})
+				}
 			case 1:
 				nv = enc(map[string]interface{}{key: "NEW"})
 			case 2:
